@@ -59,6 +59,7 @@ func init() {
 		"hash/crc32.ChecksumIEEE": intrCRC,
 		"time.Now":         intrHavocResult,
 		"encoding/binary.Read": intrBinaryRead,
+		"sort.Search":          intrSortSearch,
 		"github.com/dgraph-io/badger/v3.DB.Update": intrBadgerTxn,
 		"github.com/dgraph-io/badger/v3.DB.View":   intrBadgerTxn,
 		"time.Since":       intrHavocResult,
@@ -113,7 +114,7 @@ func intrBytesEqual(vc *VC, fr *Frame, st *State, args []Val, c *ssa.CallCommon,
 	h := vc.byteHeap(st)
 	r := vc.sc.fresh("bytes.eq", sortBool)
 	k := vc.sc.fresh("bytes.eq.k", sortIdx)
-	at := func(s Val, i string) string { return sel(sel(h, s.Sl[0]), bvAdd(s.Sl[1], i)) }
+	at := func(s Val, i string) string { return sel(sel(h, s.Sl[0]), elemIdx(s.Sl[1], i)) }
 	i := "i!q"
 	all := fmt.Sprintf("(forall ((%s %s)) (=> (and (bvsle %s %s) (bvslt %s %s)) (= %s %s)))", i, sortIdx, i64(0), i, i, a.Sl[2], at(a, i), at(b, i))
 	vc.sc.assert(implies(r, and(eq(a.Sl[2], b.Sl[2]), all)))
@@ -127,7 +128,7 @@ func intrBytesCompare(vc *VC, fr *Frame, st *State, args []Val, c *ssa.CallCommo
 	h := vc.byteHeap(st)
 	r := vc.sc.fresh("bytes.cmp", sortIdx)
 	d := vc.sc.fresh("bytes.cmp.d", sortIdx) // first index where they differ or min(len)
-	at := func(s Val, i string) string { return sel(sel(h, s.Sl[0]), bvAdd(s.Sl[1], i)) }
+	at := func(s Val, i string) string { return sel(sel(h, s.Sl[0]), elemIdx(s.Sl[1], i)) }
 	la, lb := a.Sl[2], b.Sl[2]
 	i := "i!q"
 	common := fmt.Sprintf("(forall ((%s %s)) (=> (and (bvsle %s %s) (bvslt %s %s)) (= %s %s)))", i, sortIdx, i64(0), i, i, d, at(a, i), at(b, i))
@@ -501,6 +502,10 @@ func (vc *VC) havocModifies(st *State, env *Env, callee *ssa.Function, m string)
 			vc.sc.assert(fmt.Sprintf("(forall ((r!q Int)) (! (=> (< r!q %s) (= (select %s r!q) (select %s r!q))) :pattern ((select %s r!q))))", oldNext, nh, o.term, nh))
 		}
 		return
+	case strings.HasPrefix(m, "heap "):
+		// a whole heap variable (all objects' values of one field / element type)
+		vc.havocHeapVar(st, strings.TrimSpace(m[5:]))
+		return
 	case strings.HasPrefix(m, "ghost "):
 		g := strings.TrimSpace(m[6:])
 		if old, ok := st.ghost[g]; ok {
@@ -508,8 +513,9 @@ func (vc *VC) havocModifies(st *State, env *Env, callee *ssa.Function, m string)
 			st.ghost[g] = nv
 		}
 		return
-	case strings.HasSuffix(m, "[*]"):
-		e, err := parseSpecExpr(strings.TrimSuffix(m, "[*]"))
+	case strings.HasSuffix(m, "[*]") || strings.HasSuffix(m, "[*cap]"):
+		wholeCap := strings.HasSuffix(m, "[*cap]")
+		e, err := parseSpecExpr(strings.TrimSuffix(strings.TrimSuffix(m, "[*]"), "[*cap]"))
 		if err != nil {
 			vc.unsupported("modifies %q: %v", m, err)
 			vc.havocAllHeap(st)
@@ -533,6 +539,9 @@ func (vc *VC) havocModifies(st *State, env *Env, callee *ssa.Function, m string)
 			return
 		}
 		et := v.T.Underlying().(*types.Slice).Elem()
+		if wholeCap {
+			v.Sl[2] = v.Sl[3]
+		}
 		for _, lf := range leavesOf(et) {
 			if lf.bad {
 				continue
@@ -691,7 +700,7 @@ func intrBinaryRead(vc *VC, fr *Frame, st *State, args []Val, c *ssa.CallCommon,
 	h := vc.byteHeap(st)
 	var bs []string
 	for k := 0; k < w/8; k++ {
-		bs = append(bs, sel(sel(h, buf.Sl[0]), bvAdd(buf.Sl[1], bvAdd(off.S, i64(int64(k))))))
+		bs = append(bs, sel(sel(h, buf.Sl[0]), elemIdx(buf.Sl[1], bvAdd(off.S, i64(int64(k))))))
 	}
 	if little {
 		for l, rr := 0, len(bs)-1; l < rr; l, rr = l+1, rr-1 {
@@ -768,4 +777,40 @@ func intrBadgerTxn(vc *VC, fr *Frame, st *State, args []Val, c *ssa.CallCommon, 
 		st.ghost["committed"] = boolVal(and(eq(ferr.If[0], "0"), eq(ctag, "0")))
 	}
 	return Val{K: KIface, T: errT, If: [2]string{ite(eq(ferr.If[0], "0"), ctag, ferr.If[0]), ite(eq(ferr.If[0], "0"), ite(eq(ctag, "0"), "0", cref), ferr.If[1])}}
+}
+
+// sort.Search(n, pred): what binary search guarantees for ANY predicate (no monotonicity assumed):
+// the result i is in [0, n], pred(i) holds if i < n, and pred(i-1) does not hold if i > 0.
+// The predicate closure is evaluated symbolically at i and at i-1 (on copies of the state; a
+// predicate with side effects is outside this model).
+func intrSortSearch(vc *VC, fr *Frame, st *State, args []Val, c *ssa.CallCommon, pos token.Position) Val {
+	n := args[0]
+	cl := args[1]
+	i := vc.sc.fresh("search.i", sortIdx)
+	vc.assume(st, and(sx("bvsle", i64(0), i), sx("bvsle", i, n.S)))
+	if cl.Clo == nil {
+		vc.note("sort.Search with a non-literal predicate: result only known to be in [0, n]")
+		return intVal(i)
+	}
+	fn := cl.Clo.Fn.(*ssa.Function)
+	var ccon *Contract
+	if isNestedIn(fn, fr.fn) {
+		ccon = fr.con
+	}
+	evalAt := func(idx string, guard string) string {
+		s2 := st.clone()
+		vc.assume(s2, guard)
+		res, _ := vc.execFunc(fn, []Val{intVal(idx)}, cl.Clo.Bindings, s2, fr.depth+1, ccon, false)
+		if len(res) != 1 || res[0].K != KScalar {
+			return vc.sc.fresh("pred", sortBool)
+		}
+		return vc.sc.define("pred", sortBool, res[0].S)
+	}
+	inRange := sx("bvslt", i, n.S)
+	bi := evalAt(i, inRange)
+	vc.assume(st, implies(inRange, bi))
+	pos0 := sx("bvsgt", i, i64(0))
+	bp := evalAt(bvSub(i, i64(1)), pos0)
+	vc.assume(st, implies(pos0, not(bp)))
+	return intVal(i)
 }
